@@ -37,6 +37,17 @@ EXTRA = [
     ("statement", "@{a=} SELECT 1"), ("statement", "@{a=1} CREATE TABLE t (a INT64) PRIMARY KEY (a)"), ("query", "WITH a AS (SELECT ) SELECT 1 +"), ("query", "SELECT 1 |> WHERE |> SELECT"),
     ("ddl", "CREATE TABLE t (a ARRAY<STRUCT<b INT64, c>>, d 1) PRIMARY KEY (a"), ("ddl", "CREATE VIEW v SQL SECURITY INVOKER AS SELECT +"), ("ddl", "CREATE INDEX i ON t (a +)"),
 ]
+# unclosed nesting: every opener (repeated) in front of a body, cut off before it is closed
+for _o in ["(", "((", "(((", "[", "[(", "CASE", "CASE WHEN", "ARRAY<", "STRUCT<", "ARRAY<STRUCT<", "{", "f(", "IF(", "CAST(", "EXISTS(", "ARRAY(", "NEW T(", "NEW T {a:"]:
+    for _b in ["SELECT 1", "1", "a +", "", "SELECT 1 WHERE true", "(SELECT 1) UNION ALL (SELECT 2"]:
+        EXTRA.append(("expr", _o + _b))
+        EXTRA.append(("query", "SELECT " + _o + _b))
+        EXTRA.append(("dml", "UPDATE t SET a = " + _o + _b))
+        EXTRA.append(("ddl", "CREATE TABLE t (a INT64 DEFAULT (" + _o + _b))
+for _t in ["ARRAY<", "ARRAY<ARRAY<", "STRUCT<a ", "STRUCT<a ARRAY<", "ARRAY<STRUCT<a INT64, b ", "STRUCT<>", "ARRAY<STRUCT<x 1>>", "ARRAY<1 < 2>>", "ARRAY<ARRAY<b c>>"]:
+    EXTRA.append(("type", _t))
+    EXTRA.append(("expr", "CAST(a AS " + _t))
+    EXTRA.append(("expr", "CAST(a AS " + _t + ")"))
 
 
 def alpha(a):
@@ -124,14 +135,16 @@ def record_with_watchdog(args, pre, chunks, hangs):
         if p.returncode == 3 and os.path.exists(hangfile):
             info = json.loads(open(hangfile).read())
             hangs.append(info)
-            # count what was written so far to know where to restart
-            done = 0
+            # drop a record cut in half by the exit, then restart after the call that hung
             for k in range(chunks):
                 f = "%s.%d.ndjson" % (pp, k)
                 if os.path.exists(f):
-                    done += sum(1 for _ in open(f))
+                    data = open(f, "rb").read()
+                    if data and not data.endswith(b"\n"):
+                        with open(f, "wb") as fh:
+                            fh.write(data[:data.rfind(b"\n") + 1])
             prefixes.append(pp)
-            skip += done + 1
+            skip = info["done"] + 1
             part += 1
             if part >= 4:
                 break       # enough evidence: stop recording this set, the hangs are reported by C03
